@@ -62,6 +62,14 @@ func TestC16_VerdictsMatchReference(t *testing.T) {
 			target = &t0
 			rules = c16Ladder(rt, t0, incoming)
 		}
+		if target == nil && rapid.IntRange(0, 7).Draw(rt, "caPairMode") == 0 {
+			// one proto/port bucket holding ca_sha and ca_name rules that both name the peer's CA (or
+			// another one), each with its own peer selector: the verdict must be the OR of the rules,
+			// not whatever the first CA table says
+			t0 := fwrGenPacket(rt, n, peer)
+			target = &t0
+			rules = c16CAPair(rt, peer, incoming)
+		}
 		fw, err := fwrNewFirewall(n, time.Minute, time.Minute, time.Minute, rules)
 		if err != nil {
 			rt.Fatalf("rule set refused: %v", err)
@@ -116,6 +124,42 @@ func TestC16_VerdictsMatchReference(t *testing.T) {
 			}
 		}
 	})
+}
+
+// c16CAPair: 2-4 rules for any protocol and any port that differ in their CA selector (ca_sha of
+// the peer's issuer / another fingerprint, ca_name of the peer's CA / another name, none) and in
+// their peer selector (matching everybody, or a group/host the peer may not have).
+func c16CAPair(rt *rapid.T, peer fwrPeer, incoming bool) []fwrRule {
+	n := rapid.IntRange(2, 4).Draw(rt, "caPairN")
+	var rules []fwrRule
+	for i := 0; i < n; i++ {
+		r := fwrRule{Incoming: incoming, Proto: firewall.ProtoAny, Start: 0, End: 0}
+		switch rapid.IntRange(0, 4).Draw(rt, "caPairKind") {
+		case 0:
+			r.CASha = peer.Issuer
+		case 1:
+			r.CAName = fwrTrusted[peer.Issuer]
+		case 2:
+			r.CASha = rapid.SampledFrom(fwrRuleCAShas).Draw(rt, "caPairSha")
+		case 3:
+			r.CAName = rapid.SampledFrom(fwrRuleCANames).Draw(rt, "caPairName")
+		}
+		switch rapid.IntRange(0, 3).Draw(rt, "caPairSel") {
+		case 0:
+			r.Host = "any"
+		case 1:
+			r.Groups = []string{rapid.SampledFrom(fwrGroups).Draw(rt, "caPairGroup")}
+		case 2:
+			r.Host = rapid.SampledFrom(fwrRuleHosts).Draw(rt, "caPairHost")
+		default:
+			r.CIDR = "0.0.0.0/0"
+		}
+		if r.CASha == "" && r.CAName == "" && r.Host == "" && len(r.Groups) == 0 && r.CIDR == "" {
+			r.Host = "any"
+		}
+		rules = append(rules, r)
+	}
+	return rules
 }
 
 // c16Ladder: 2-4 rules in one proto/port/CA bucket whose remote cidr (and local_cidr) are nested
